@@ -71,6 +71,7 @@ def run(prog: Program, col: Collector, tier: str, refs: Optional[Refs] = None, c
     from . import c04
     c04._self_referential_filter(prog, col, refs, cat)
     algebra.r_binary_rule_operand_order(prog, col, refs, cat, "R01.22")
+    algebra.r_receiver_narrowed_reduce(prog, col, refs, cat, "R01.26")
     from . import kernels
     kernels.r_aligned_or_same_layout(prog, col, refs, cat, "R01.23")
     kernels.r_unit_axis_padding(prog, col, refs, cat, "R01.24")
@@ -85,4 +86,8 @@ def run(prog: Program, col: Collector, tier: str, refs: Optional[Refs] = None, c
     # eager evaluation of Number operands runs the scalar implementation of an op, of Tensor operands the array one: they must agree
     from . import numerics
     numerics.run_agreement(prog, col, refs, cat, rule="R01.13")
+    from . import algebra as _algebra
+    _algebra.r_split_reduced_vars_accounted(prog, col, refs, cat, "R01.27")
+    from . import algebra as _algebra2
+    _algebra2.r_guarded_reduce_has_alternative(prog, col, refs, cat, "R01.28")
     return col
